@@ -1041,7 +1041,7 @@ fn cmd_c07(seed: u64, n: u64, ops_path: &str, impl_path: &str) -> Result<()> {
         let keep = rng.range(0, api.len() as u64) as usize;
         idx.truncate(keep);
         let mut g = GuestSpec { apis: idx.clone(), foreign_first: rng.below(2) == 0, foreign_between: rng.below(2) == 0, own_stuff: true, memories: 1, module_name: API_MODULE.into(), own_state: true, foreign_memory: false, bad_sig: None, extra_import: None, dup: None, nonfunc: None, extra_nonfunc: None };
-        let variant = i % 13;
+        let variant = i % 14;
         let vname = match variant {
             0 | 1 => "valid",
             2 => {
@@ -1113,6 +1113,12 @@ fn cmd_c07(seed: u64, n: u64, ops_path: &str, impl_path: &str) -> Result<()> {
             11 => {
                 g.nonfunc = Some(rng.below(api.len() as u64) as usize);
                 "non-function-api-name"
+            }
+            13 => {
+                // no memory of its own, only an imported one: still "no memory" for the tool
+                g.memories = 0;
+                g.foreign_memory = true;
+                "imported-memory-only"
             }
             _ => {
                 // an unknown name in the API namespace that is not a function
